@@ -108,7 +108,14 @@ R.spec_funcs["paths_of"] = lambda it, self_: self_.fields["raw_schema"].get("pat
 
 # ------------------------------------------------------------------------------------------------- effective parameters
 Param = lambda tag: DictOf(required={"name": Str, "in": Choice("query", "header"), "x-level": Const(tag)})
-R.contract(OAS + "BaseOpenAPISchema._resolve_shared_parameters", args={"self": Opq("Any"), "path_item": Opq("Any")}, returns=ListOf(Param("path"), [0, 1, 2]), trusted=True,
+def _shared(it, env):
+    # inside get_all_operations the parameters are not examined (they are handed on to collect_parameters, contract below): no path-level parameters there
+    if it.top_contract.target.endswith("get_all_operations"):
+        return []
+    return ListOf(Param("path"), [0, 1, 2]).make(it, it.path.fresh("ret:_resolve_shared_parameters"))
+
+
+R.contract(OAS + "BaseOpenAPISchema._resolve_shared_parameters", args={"self": Opq("Any"), "path_item": Opq("Any")}, returns=_shared, trusted=True,
            effects={"shared": "result"}, note="resolved path-level parameters")
 R.contract(OAS + "BaseOpenAPISchema.collect_parameters", args={"self": Opq("Any"), "parameters": Opq("Any"), "definition": Opq("Any")}, returns=Opq("Parameters"), trusted=True,
            effects={"given": "list_of(parameters)"}, note="builds one parameter object per definition it is given")
@@ -152,13 +159,14 @@ R.contract(OAS + "BaseOpenAPISchema._into_err", args={"self": Opq("Any"), "error
 R.contract("schemathesis.hooks:HookContext", abstract_only=True, args={}, returns=Opq("HookContext"), note="dataclass constructor")
 Entry = DictOf(optional={"parameters": Const(())})
 PI = DictOf(optional={"get": Entry, "post": Entry, "parameters": Const(()), "x-internal": Opq("Ext")})
+PI1 = DictOf(optional={"get": Entry, "post": Entry})
 DOC = "[(p, m) for p in all_paths(self) for m in all_paths(self)[p] if m in ('get', 'put', 'post', 'delete', 'options', 'head', 'patch', 'trace')]"
 R.spec_funcs["all_paths"] = lambda it, self_: self_.fields["raw_schema"]["paths"]
 R.contract(
     OAS + "BaseOpenAPISchema.get_all_operations",
     prop="C08",
-    args={"self": Obj(OAS + "BaseOpenAPISchema", raw_schema=DictOf(required={"paths": DictOf(optional={"/a": PI, "/b": PI})}), resolver=Opq("Resolver")), "generation_config": NoneT},
-    ghost={"made": [], "made_with": [], "errs": [], "skipped": [], "shared": [], "given": []},
+    args={"self": Obj(OAS + "BaseOpenAPISchema", raw_schema=DictOf(required={"paths": DictOf(optional={"/a": PI, "/b": PI1})}), resolver=Opq("Resolver")), "generation_config": NoneT},
+    ghost={"made": [], "made_with": [], "errs": [], "skipped": []},
     raises=[],
     ensures={
         # every documented operation is offered with its parameters, reported as a schema error, or deselected by the filters - exactly once; a path item that cannot be resolved is reported once
@@ -167,7 +175,7 @@ R.contract(
         "one_result_per_offered_or_reported": "length(result) == length(ghost('made')) + length(ghost('errs'))",
         "unresolvable_path_reported_once_and_alone": "all(implies(ghost('errs').count((p, None)) > 0, ghost('errs').count((p, None)) == 1 and not any(pm[0] == p for pm in ghost('made'))) for p in all_paths(self))",
     },
-    bounded_note="documents with up to 2 paths x {get, post, parameters, extension key}",
+    bounded_note="documents with up to 2 paths x {get, post} (+ parameters / extension key)",
     replayable=False,
     max_paths=40000,
 )
